@@ -432,6 +432,20 @@ impl<'a, W: 'static, R: 'static, T: 'static> RuntimeScope<'a, W, R, T> {
                 let mut args = args;
                 let mut recursion_depth = 0_usize;
                 loop {
+                    // an error argument is the result of the call (the leftmost one)
+                    if let Some(err) = args.iter().find_map(|a| a.as_ref().err()) {
+                        break Ok(TailedEvalResult::Value(Err(err.clone())));
+                    }
+                    // so is an error default that fills a parameter left out by the caller
+                    let omitted = template.param_count.saturating_sub(args.len());
+                    if let Some(err) = template
+                        .defaults
+                        .iter()
+                        .skip(template.defaults.len().saturating_sub(omitted))
+                        .find_map(|d| d.as_ref().err())
+                    {
+                        break Ok(TailedEvalResult::Value(Err(err.clone())));
+                    }
                     let scope =
                         Self::from_template(template.clone(), Some(self), rt.clone(), args)?;
                     let v = scope.eval(output.as_ref(), rt.clone(), true);
